@@ -1,7 +1,7 @@
 """C02 — parallel evaluation equals serial evaluation under every schedule."""
 from . import core, eng, gen, engcheck
 
-THEOREMS = ["runPar_eq_leastModel", "par_eq_serial", "par_schedule_independent", "nd_eq_leastModel", "nd_runs_agree", "par_is_nd", "runPhysPar_eq_leastModel", "runPhysPar_schedule_pool_independent", "tcPar_hyps"]
+THEOREMS = ["runPar_eq_leastModel", "par_eq_serial", "par_schedule_independent", "nd_eq_leastModel", "nd_runs_agree", "par_is_nd", "runPhysPar_eq_leastModel", "runPhysPar_schedule_pool_independent", "tcPar_hyps", "runPhysParLat_spec", "runPhysParLat_spec_antisymm", "runPhysParLat_needs_flag_law", "distPar_hyps"]
 TRUSTED = ["Lean 4.33.0 kernel", "axioms: propext, Classical.choice, Quot.sound only (audited per theorem)",
            "statement: Props/C02.lean (the parallel iteration as an arbitrary interleaving of atomic head updates over frozen total/delta; "
            "every schedule computes the least model, hence equals the serial result)",
@@ -12,6 +12,11 @@ TRUSTED = ["Lean 4.33.0 kernel", "axioms: propext, Classical.choice, Quot.sound 
            "written while frozen) and, if it returns, holds exactly the least model; the result is again a value run() may be called on",
            "Model/EnginePhysPar.lean (the ascent_par! code over its concurrent indices with the frozen / unfrozen protocol, panics included) is what the Lean side runs for the "
            "relational programs of this tie (`eng runpp`), in a pool of the same size: relations and scc_iters must agree and the model must not panic",
+           "Props/C02PhysLat.lean (Model/EnginePhysParLat.lean, Proofs/PhysParLat*.lean, ~3 500 lines): ascent_par! WITH lattice relations over its concurrent indices (CRelFullIndex key index, CLatIndex "
+           "row-number sets, get_cloned look-up chain new/delta/total, join_mut under the row lock, re-queue unless the key was found in `new`, insertion mutex with re-check; every head update one atomic step in "
+           "schedule order): for EVERY schedule, pool size, rule-scheduling mode and fuel the run never panics and ends with one row per key, closed, least for monotone programs (runPhysParLat_spec); the flag law of "
+           "join_mut (value untouched when it reports unchanged) is a hypothesis and NEEDED (runPhysParLat_needs_flag_law: a machine-checked counterexample without it); it follows from antisymmetry "
+           "(runPhysParLat_spec_antisymm); tied by `eng runppl` on the lattice programs of this check",
            "tie: ascent_par! twins of generated programs (relations, lattices, aggregation, with and without #![inter_rule_parallelism]) run in pools "
            "of 1,2,3,4,8,16 threads under seeded perturbation of the concurrent index inserts (hook), with a hang watchdog, vs the serial model and oracle",
            "PARTIAL: atomicity of DashMap shard locks, boxcar push, RwLock/Mutex and rayon's completion (happens-before for the Relaxed `changed` flag) "
@@ -128,7 +133,7 @@ def canon(c, out):
 
 
 def check(tier, replay=None):
-    return engcheck.run_property("C02", tier, modules=["AscentVerif.Props.C02", "AscentVerif.Props.C02ND", "AscentVerif.Props.C02Phys"], theorems=THEOREMS, trusted=TRUSTED, group="c02",
+    return engcheck.run_property("C02", tier, modules=["AscentVerif.Props.C02", "AscentVerif.Props.C02ND", "AscentVerif.Props.C02Phys", "AscentVerif.Props.C02PhysLat"], theorems=THEOREMS, trusted=TRUSTED, group="c02",
                                  build=build, oracle=oracle, known=known, what="ascent_par! programs under perturbed schedules",
                                  rule="ascent_par! twins of generated relational / lattice / aggregation programs, with and without #![inter_rule_parallelism], constructed and run "
                                       "in pools of 1..16 threads, under seeded perturbation (yield / spin / sleep at every concurrent index insert); every run must equal the "
